@@ -525,14 +525,13 @@ func (root *Root) resolveField(
 			return
 		}
 	}
-	const queryType = "Query"
 	var ea2 []error
 	switch field.Name {
 	case "__typename":
 		result[field.key()] = t.Name()
 		return nil
 	case "__type":
-		if t.Name() == queryType {
+		if root.isQueryType(t) {
 			var fv interface{} // field value
 			var av *ArgValue
 
@@ -564,7 +563,7 @@ func (root *Root) resolveField(
 		ea = append(ea, resWarnp(field, "__type meta-field is only on the query object"))
 		return
 	case "__schema":
-		if t.Name() == queryType {
+		if root.isQueryType(t) {
 			var fv interface{} // field value
 
 			fv, ea2 = root.resolve(root, vars, field, root.uuSchemaType, depth)
@@ -652,6 +651,16 @@ func mergeResult(old, val interface{}) interface{} {
 		}
 	}
 	return val
+}
+
+// isQueryType returns true if t is the type of the query operation root.
+func (root *Root) isQueryType(t Type) bool {
+	if root.schema != nil {
+		if fd := root.schema.fields.get(string(OpQuery)); fd != nil {
+			return fd.Type == t
+		}
+	}
+	return t.Name() == "Query"
 }
 
 func (root *Root) addError(f *Field, ea []error, err error) []error {
